@@ -109,6 +109,9 @@ fn do_prio(run: &mut Run, t: IceCandidateType, comp: u16, tr: &str) {
     };
     run.case("prio", &input, &v.to_string(), true);
     if (1..=256).contains(&comp) {
+        // UDP: local preference 65535 (single-homed, RFC 8445 §5.1.2.1); TCP flavours: the RFC fixes the
+        // shape of the formula, the local preference is the implementation's choice (any 16-bit value)
+        let lp = if tr == "udp" { lp } else { let _ = lp; ((v >> 8) & 0xffff) as u64 };
         let want = rfc_priority(t, lp, comp as u64);
         if v as u64 != want {
             run.fail(&format!("codec:priority:{}:{}", typ_name(t), tr), &format!("prio {input}"),
